@@ -1240,3 +1240,29 @@ Example command_help_renders_refuted :
   (match render_page 16 ex_u_open ex_xx_page, render_page 19 ex_u_open ex_xx_page, render_page 17 ex_plainf ex_xx_page, render_page 24 ex_u_open ex_xx_page with
    | Ok _, Ok _, Ok _, Ok _ => True | _, _, _, _ => False end).
 Proof. vm_compute. repeat split; reflexivity. Qed.
+
+(* REFUTED for the application page with the EMPTY stack.  The application "app", display name "D", a version of 22 characters
+   and the single global option --xx (integer, default 3, value name "level", description "abcdefgh ij"): tag-free, all
+   configuration hypotheses met; the visible labels need 15 columns (the identity formatter: 33).  At 21 columns the first
+   paragraph "D version <c1>1111111111111111111111</c1>" is wrapped at 20 and its long word is broken twice - "D version
+   <c1>111111" / "1111111111111111</c1" / ">": the closing tag is cut, c1 stays open.  Further down the option's text is wrapped
+   at 7 - "abcdefg" / "h ij <b" / ">(defau" / "lt:" / "3)</b>": the opening tag is cut, the closing one is found, and b is not
+   on the stack [c1]: ValueError.  At 20 and 22
+   columns, or with a version of 21 characters, the page renders.  Observed alike on the Python code (ApplicationHelp of a
+   ConsoleApplication over ApplicationConfig("app", "1" * 22) with display name "D" and that option, BufferedIO of width 21,
+   PlainFormatter and AnsiFormatter: ValueError "Incorrectly nested style tag found."; widths 19, 20, 22, 23: no error). *)
+Definition ex_xx2 : hopt :=
+  {| h_o := {| o_long := [120;120]%N; o_short := None; o_flags := 8 + 512 + 1; o_default := VInt 3 |};
+     h_odesc := Some [97;98;99;100;101;102;103;104;32;105;106]%N; h_vname := LEVEL |}.
+Definition ex_long_version_page : layout :=
+  application_page (f_styles ex_plainf) (Some APP) (Some [68]%N) (Some (repeat 49%N 22)) [ex_xx2] [] None.
+Lemma ex_xx2_fine : opt_fine ex_xx2.
+Proof. split; [ex_plain|]. split; [exact I|]. split; [repeat constructor; discriminate|]. split; [ex_tagname|repeat constructor; discriminate]. Qed.
+Example application_help_renders_refuted :
+  f_stack ex_plainf = [] /\ needed_width_for (f_styles ex_plainf) ex_long_version_page = 15%Z /\ needed_width ex_long_version_page = 33%Z /\
+  plain (repeat 49%N 22) /\
+  page_words_fitb (f_styles ex_plainf) 21 ex_long_version_page = false /\ page_words_fitb (f_styles ex_plainf) 36 ex_long_version_page = true /\
+  render_page 21 ex_plainf ex_long_version_page = Err ValueError /\ render_page 21 ex_ansif ex_long_version_page = Err ValueError /\
+  (match render_page 20 ex_plainf ex_long_version_page, render_page 22 ex_plainf ex_long_version_page, render_page 36 ex_plainf ex_long_version_page with
+   | Ok _, Ok _, Ok _ => True | _, _, _ => False end).
+Proof. split; [reflexivity|]. split; [vm_compute; reflexivity|]. split; [vm_compute; reflexivity|]. split; [ex_plain|]. vm_compute. repeat split; reflexivity. Qed.
